@@ -239,6 +239,29 @@ pub fn run(ctx: &Ctx) -> (Report, String) {
             rep.merge(Report::merge_all(hr));
             rep.require("huge_pictures_postprocessed", huge.len() as u64);
         }
+        // the five standard source formats, signalled by their PTYPE format code (baseline header)
+        for (fi, f) in STD_FIXED.iter().enumerate() {
+            let (w, h) = (f.1, f.2);
+            let mut rng = Rng::new(ctx.seed ^ 0xC13F, fi as u64);
+            let cfg = super::ladder::cfg_for(&mut rng, Flavour::StdFixed, w, h, 0);
+            let pic = super::ladder::large_intra(&mut rng, &cfg);
+            let bytes = pic.encode();
+            rep.evaluations += 1;
+            let coords = || J::obj().set("property", "C13").set("kind", "std-format").set("tier", ctx.tier_name()).set("seed", ctx.seed).set("stage", ctx.stage.clone()).set("w", w).set("h", h);
+            let mut dec = Dec::new(false, false);
+            match dec.decode(&bytes) {
+                Outcome::Ok => {
+                    if pipeline(&dec, w, h, cfg.quant, &mut rep, &coords) {
+                        rep.count("standard_format_pictures_postprocessed");
+                    }
+                }
+                Outcome::Panic { msg, loc } => rep.violation(format!("panic@{}", loc), format!("baseline {}x{} picture panicked: {}", w, h, msg), coords()),
+                Outcome::Err(e) => rep.count(&format!("skipped:std-format:{}", e)),
+            }
+        }
+        if ctx.is_main() {
+            rep.require("standard_format_pictures_postprocessed", 5);
+        }
         for (w, h) in [(128, 96), (176, 144), (352, 288), (320, 240), (160, 120)] {
             for k in 0..ks {
                 case(ctx, w, h, k, &mut rep);
